@@ -272,6 +272,9 @@ func (p Statements) PrettyPrint(ps *PrintState) *PrintState {
 	}
 	ps.IndentLevel++
 	ps.ExpressionPrecedence = LOWEST
+	// Nothing precedes the first statement of a block: the last statement of an earlier block (if a {b /* c */} else {d})
+	// is not its neighbour and must not decide whether it starts on the line of the `{`.
+	ps.prev = nil
 	var i int
 	for _, s := range p.Statements {
 		if ps.Compact {
